@@ -61,7 +61,7 @@ func Run(r *ev.Run, replay string) {
 	if err := ev.ReadJSON(ev.Root+"/witnesses/C11.json", &wit); err != nil {
 		r.Inconclusive("witnesses/C11.json: " + err.Error())
 	}
-	n := r.N(30000, 200000)
+	n := r.N(30000, 1500000)
 	var wg sync.WaitGroup
 	for _, sg := range systems() {
 		for _, w := range wit {
